@@ -36,9 +36,8 @@ theorem Ctx0.outer_sv [AddCommMonoid R] [Mul R] [Neg R]
           V.get J = (tensordotBlockwise A B (freeAxes A.ndim []) [] [] (freeAxes B.ndim [])).elem K J)
       ∧ (∀ s ∈ (tensordotBlockwise A B (freeAxes A.ndim []) [] [] (freeAxes B.ndim [])).sectors,
           s ∈ c.sectors)
-      ∧ (∀ K V, alookup c.blocks K = some V →
-          Arr.blockShape? (permuted A.indices (freeAxes A.ndim [])
-            ++ permuted B.indices (freeAxes B.ndim [])) K = some V.shape) := by
+      ∧ List.Forall₂ SizeLe c.indices (permuted A.indices (freeAxes A.ndim [])
+            ++ permuted B.indices (freeAxes B.ndim [])) := by
   have hA0 : A.ndim = 0 := ndim_zero_of_free_nil hL
   have hAi : A.indices = [] := List.eq_nil_of_length_eq_zero hA0
   have hpB := solo_all hneR
@@ -177,19 +176,9 @@ theorem Ctx0.outer_sv [AddCommMonoid R] [Mul R] [Neg R]
       (by simpa using segOf_stored h.vaB hokB gB0 hsb S0 hcR)
     rw [hL]
     simpa [permuted] using h2
-  · intro K V hl
-    have hs := Arr.shapesOk_of_validB hcv (K, V) (alookup_mem hl)
-    simp only at hs
-    rw [hci] at hs
-    rw [hL]
-    have : List.Forall₂ SizeLe
-        ((if ((freeAxes B.ndim []).length != 1) = true then
-          ((dropTo (FuseP.ixM B [freeAxes B.ndim []] 0) S0).sub.map (·.1)).getD []
-        else [dropTo (FuseP.ixM B [freeAxes B.ndim []] 0) S0]))
-        (permuted A.indices [] ++ permuted B.indices (freeAxes B.ndim [])) := by
-      have e : permuted A.indices [] = [] := rfl
-      rw [e, List.nil_append]; exact hleg
-    exact blockShape?_weaken this K _ hs
+  · rw [hci, hL]
+    have e : permuted A.indices [] = [] := rfl
+    rw [e, List.nil_append]; exact hleg
 
 /-- **no contracted axes, right operand of rank 0, aligned operands.** -/
 theorem Ctx0.outer_vs [AddCommMonoid R] [Mul R] [Neg R]
@@ -205,9 +194,8 @@ theorem Ctx0.outer_vs [AddCommMonoid R] [Mul R] [Neg R]
           V.get J = (tensordotBlockwise A B (freeAxes A.ndim []) [] [] (freeAxes B.ndim [])).elem K J)
       ∧ (∀ s ∈ (tensordotBlockwise A B (freeAxes A.ndim []) [] [] (freeAxes B.ndim [])).sectors,
           s ∈ c.sectors)
-      ∧ (∀ K V, alookup c.blocks K = some V →
-          Arr.blockShape? (permuted A.indices (freeAxes A.ndim [])
-            ++ permuted B.indices (freeAxes B.ndim [])) K = some V.shape) := by
+      ∧ List.Forall₂ SizeLe c.indices (permuted A.indices (freeAxes A.ndim [])
+            ++ permuted B.indices (freeAxes B.ndim [])) := by
   have hB0 : B.ndim = 0 := ndim_zero_of_free_nil hR
   have hBi : B.indices = [] := List.eq_nil_of_length_eq_zero hB0
   have hpA := solo_all hneL
@@ -348,19 +336,9 @@ theorem Ctx0.outer_vs [AddCommMonoid R] [Mul R] [Neg R]
       (by simpa using segOf_stored h.vaA hokA gA0 hsa S0 hcL)
     rw [hR]
     simpa [permuted] using h2
-  · intro K V hl
-    have hs := Arr.shapesOk_of_validB hcv (K, V) (alookup_mem hl)
-    simp only at hs
-    rw [hci] at hs
-    rw [hR]
-    have : List.Forall₂ SizeLe
-        ((if ((freeAxes A.ndim []).length != 1) = true then
-          ((dropTo (FuseP.ixM A [freeAxes A.ndim []] 0) S0).sub.map (·.1)).getD []
-        else [dropTo (FuseP.ixM A [freeAxes A.ndim []] 0) S0]))
-        (permuted A.indices (freeAxes A.ndim []) ++ permuted B.indices []) := by
-      have e : permuted B.indices [] = [] := rfl
-      rw [e, List.append_nil]; exact hleg
-    exact blockShape?_weaken this K _ hs
+  · rw [hci, hR]
+    have e : permuted B.indices [] = [] := rfl
+    rw [e, List.append_nil]; exact hleg
 
 end TdotP
 end SymmModel
